@@ -1,6 +1,7 @@
 package crlreader
 
 import (
+	"encoding/pem"
 	"crypto/x509/pkix"
 
 	"github.com/gr33nbl00d/caddy-revocation-validator/core"
@@ -77,6 +78,10 @@ func VerifC17_Reader() {
 // the document or of the list (no whole-file read, no read-ahead sized from a length field).
 func VerifC17_BigFiles() {
 	fill = 0
+	// pem=1: the same two documents in PEM armour (64-column base64 lines), through the real PEM detection,
+	// the real PemReader and the real streaming base64 decoder of the standard library
+	asPEM := verifrt.Param("pem", 0) == 1
+	entryLen := verifrt.Param("entrylen", 60000)
 	measure := func(k int) (int, int) {
 		installModels(16)
 		theHash.off = true
@@ -85,19 +90,23 @@ func VerifC17_BigFiles() {
 		verifrt.ClearOverride("github.com/gr33nbl00d/caddy-revocation-validator/core/pemreader.IsPemFile")
 		algOID = oidTable[0]
 		extsModel = []pkix.Extension{{Id: oidAKI, Value: []byte{1, 2, 3, 4}}}
-		s := shape{hasVersion: true, hasNext: true, hasList: true, hasExt: true, k: k, cls: 2, entryLen: 60000}
+		s := shape{hasVersion: true, hasNext: true, hasList: true, hasExt: true, k: k, cls: 2, entryLen: entryLen}
 		p := build(s)
 		p.file[p.tbsOff+hdrLen(p.file[p.tbsOff:])+2] = 1 // version v2
-		path := verifrt.PutFile("crl.der", p.file, len(p.file))
+		doc := p.file
+		if asPEM {
+			doc = pem.EncodeToMemory(&pem.Block{Type: "X509 CRL", Bytes: p.file})
+		}
+		path := verifrt.PutFile("crl.der", doc, len(doc))
 		proc := &liveProc{}
 		verifrt.MaxAlloc(true)
 		res, err := StreamingCRLFileReader{}.ReadCRL(proc, path)
 		verifrt.Assert(err == nil && res != nil && proc.n == k, "harness: the big CRL is read completely")
-		return verifrt.MaxAlloc(false), len(p.file)
+		return verifrt.MaxAlloc(false), len(doc)
 	}
 	m3, n3 := measure(3)
 	m6, n6 := measure(6)
-	verifrt.Assert(n6 > n3+150000, "harness: the second document is much larger")
+	verifrt.Assert(n6 > n3+2*entryLen, "harness: the second document is much larger")
 	verifrt.Assert(m3 == m6, "the largest buffer does not depend on the number of entries / the size of the document")
 	verifrt.Reach("bigfiles-checked")
 }
